@@ -188,6 +188,8 @@ def lib_call(rng, names):
             args.append(ir.call('arrayNew', ir.num(1), ir.s('a'), ir.var('null')))
         elif c < 0.86:
             args.append(ir.call('objectNew', ir.s('a'), ir.num(1)))
+        elif c < 0.885:
+            args.append(ir.var(rng.choice(['gDeep', 'gCyc', 'gDeepObj'])))
         elif c < 0.90:
             args.append(ir.var(rng.choice(['fnA', 'hostTick'])))
         elif c < 0.93:
@@ -427,9 +429,30 @@ def run(plan, stats):
 # --------------------------------------------------------------------------------------------
 # adversarial family
 # --------------------------------------------------------------------------------------------
+def pathological_globals():
+    """Host-supplied BareScript values that make serialisation / traversal fail inside library code: an array
+    nested deeper than the interpreter's recursion limit, the same for objects, and a cyclic array. They are only
+    ever passed as function ARGUMENTS (behind the containment wall), never as bare operator operands."""
+    import sys
+    depth = sys.getrecursionlimit() + 5000
+    deep = []
+    for _ in range(depth):
+        deep = [deep]
+    deep_obj = {}
+    for _ in range(depth):
+        deep_obj = {'k': deep_obj}
+    cyc = [1.0]
+    cyc.append(cyc)
+    return {'gDeep': deep, 'gDeepObj': deep_obj, 'gCyc': cyc}
+
+
 def run_adversarial(plan, stats):
     import bare_script.library as lib
     viols = []
+    plan = dict(plan)
+    plan['host_globals'] = pathological_globals() if 'gDeep' in repr(plan['model']) or 'gCyc' in repr(plan['model']) else {}
+    if plan['host_globals']:
+        stats.probes['pathological_argument_value'] += 1
     dig = []
     outs = {}
     n_obs = sum(1 for st in plan['model'] if 'expr' in st and 'function' in st['expr']['expr'] and
@@ -443,7 +466,7 @@ def run_adversarial(plan, stats):
             if plan.get('entry') == 'expression':
                 out = run_expressions(p)
             else:
-                out = run_real(p, limit=0, sim_options=True, max_starts=400000)
+                out = run_real(p, limit=0, sim_options=True, max_starts=400000, globals_=dict(plan['host_globals']))
             stats.c['evaluations'] += 1
             stats.faults.update(out.fired or {})
             outs[debug] = out
@@ -558,6 +581,7 @@ def run_expressions(plan):
             raise make_exception(hf.exc_name, hf.message) from None
 
     globals_ = {name: host_adapter(name) for name in HOST_NAMES}
+    globals_.update(plan.get('host_globals') or {})
     from bare_script.library import SCRIPT_FUNCTIONS
     for k, v in SCRIPT_FUNCTIONS.items():
         globals_.setdefault(k, v)
